@@ -826,6 +826,24 @@ def sym_tanh(t):
     return (e - Sym.const(1.0)) / (e + Sym.const(1.0))
 
 
+_PYTH = set()
+
+
+def _pythagoras(fname, arg, r):
+    """sin(t)^2 + cos(t)^2 = 1 once both atoms exist for the same (solver-validated) argument: a sound axiom"""
+    other = "cos" if fname == "sin" else "sin"
+    if r.is_const():
+        return
+    for a, ro in CTX.fun.get(other, []):
+        pair = (min(r.n.get_id(), ro.n.get_id()), max(r.n.get_id(), ro.n.get_id()))
+        if pair in _PYTH:
+            continue
+        if a is arg or (key(a.c) == key(arg.c) and CTX.valid(eq_formula(a, arg))):
+            _PYTH.add(pair)
+            CTX.pc.append(r.n * r.n + ro.n * ro.n == 1)
+            return
+
+
 def sym_sin(t):
     t = sweep(as_sym(t))
     sp = _split_ite(t)
@@ -833,7 +851,9 @@ def sym_sin(t):
         return ite(sp[0], sym_sin(sp[1]), sym_sin(sp[2]))
     if t.is_const():
         return Sym.const(math.sin(t.c))
-    return ufun("sin", t, math.sin(t.c), lambda v, a: [v >= -1, v <= 1])
+    r = ufun("sin", t, math.sin(t.c), lambda v, a: [v >= -1, v <= 1])
+    _pythagoras("sin", t, r)
+    return r
 
 
 def sym_cos(t):
@@ -843,7 +863,9 @@ def sym_cos(t):
         return ite(sp[0], sym_cos(sp[1]), sym_cos(sp[2]))
     if t.is_const():
         return Sym.const(math.cos(t.c))
-    return ufun("cos", t, math.cos(t.c), lambda v, a: [v >= -1, v <= 1])
+    r = ufun("cos", t, math.cos(t.c), lambda v, a: [v >= -1, v <= 1])
+    _pythagoras("cos", t, r)
+    return r
 
 
 def sym_erf(t):
